@@ -136,6 +136,15 @@ func Build(c *core.Ctx, cp Corpus) (*Built, error) {
 	}
 	PostProcess(g)
 	types := g["types"].(map[string]any)
+	enumElem := map[string]bool{} // variants of enums are served by the generic TLItemImpl (no real object): not explored
+	for _, tx := range types {
+		t := tx.(map[string]any)
+		if t["k"] == "union" && t["enum"] == true {
+			for _, v := range toStrings(t["variants"]) {
+				enumElem[v] = true
+			}
+		}
+	}
 	only := map[string]bool{}
 	for _, n := range cp.OnlyTops {
 		only[n] = true
@@ -146,6 +155,9 @@ func Build(c *core.Ctx, cp Corpus) (*Built, error) {
 			continue
 		}
 		if k := t["k"]; k != "struct" && k != "union" {
+			continue
+		}
+		if enumElem[n] {
 			continue
 		}
 		name := n
@@ -290,6 +302,9 @@ func PostProcess(g map[string]any) {
 	a := &analyzer{types: g["types"].(map[string]any), memo: map[string]usage{}, busy: map[string]bool{}}
 	for _, tx := range a.types {
 		t := tx.(map[string]any)
+		if e, ok := t["elem"].(map[string]any); ok {
+			e["omit"] = false
+		}
 		if t["k"] != "struct" {
 			continue
 		}
@@ -297,6 +312,8 @@ func PostProcess(g map[string]any) {
 		for i, fx := range fields {
 			f := fx.(map[string]any)
 			f["dom"] = []any{}
+			name, _ := f["n"].(string)
+			f["omit"] = strings.HasPrefix(name, "_")
 			ft := a.typ(f["t"].(string))
 			if ft == nil || ft["k"] != "prim" || ft["prim"] != "uint32" {
 				continue
